@@ -219,7 +219,20 @@ func BVBig(w int, v *big.Int) *Term {
 	return intern(&Term{Op: OpConst, W: w, Big: v})
 }
 
-func Var(name string, w int) *Term { return intern(&Term{Op: OpVar, W: w, Name: name}) }
+func Var(name string, w int) *Term {
+	t := intern(&Term{Op: OpVar, W: w, Name: name})
+	varNames.Store(t.ID, name)
+	return t
+}
+
+var varNames sync.Map
+
+func varNameByID(id int) string {
+	if v, ok := varNames.Load(id); ok {
+		return v.(string)
+	}
+	return ""
+}
 
 func (t *Term) IsConst() bool { return t.Op == OpConst }
 func (t *Term) IsTrue() bool  { return t == True }
